@@ -140,6 +140,8 @@ def white_case(rec, seedt):
     rng = gen.rng_for(*seedt)
     fs = gen.loguniform(rng, 0.1, 1e4)
     psd = 10 ** rng.uniform(-3, 3)
+    if rng.random() < 0.3:
+        psd = psd * 4.0 ** int(rng.choice([-200, -60, -20, 20, 60, 200]))   # other units
     desc = {"kind": "white", "seed": list(seedt), "fs": fs, "psd": psd}
     rec.case(desc, nontrivial=True)
     g = noise.white_noise(fs, psd=psd, seed=int(rng.integers(1, 10 ** 6)))
